@@ -107,8 +107,15 @@ func (kc *ConstantCompiler) QueueConstant(ki uint) int {
 func (kc *ConstantCompiler) CompileQueue() (unit *code.Unit, err error) {
 	defer func() {
 		if r := recover(); r != nil {
-			cp, ok := r.(*CompilationPanic)
-			if !ok {
+			var cp *CompilationPanic
+			switch e := r.(type) {
+			case *CompilationPanic:
+				cp = e
+			case *code.LimitError:
+				// The code cannot be encoded because it exceeds a limit of the
+				// bytecode format.
+				cp = newPanic(e.Error())
+			default:
 				panic(r)
 			}
 			// Try to recover where we were, this is not always accurate but a
